@@ -51,12 +51,12 @@ def sortBy {α : Type} (key : α → Bytes) (l : List α) : List α :=
 
 def intStr (i : Int) : String := toString i
 
-def dumpDb (d : Db) : List String :=
+def dumpDb (d : Db) (live : Sid → Bool := fun _ => true) : List String :=
   let hdr := s!"D db {escw d.name} id={d.id} strat={stratStr d.strategy} conns={d.conns}"
   let ks := (sortBy (·.1) d.map).map fun (k, e) =>
     s!"D k {escw d.name} {escw k} ver={intStr e.version} st={statusCh e.state} va={e.vaddr} ka={e.kaddr} op={e.opId} v={esc e.value}"
   let ws := (sortBy (·.1) d.watchers).map fun (k, ss) =>
-    s!"D w {escw d.name} {escw k} {",".intercalate (ss.map toString)}"
+    s!"D w {escw d.name} {escw k} {",".intercalate (ss.map fun x => if live x then toString x else "?")}"   -- a sender whose session is gone
   hdr :: ks ++ ws
 
 def optStr (o : Option Bytes) : String := match o with | some b => escw b | none => "-"
@@ -68,7 +68,7 @@ def insSid (x : Sid × Session) : List (Sid × Session) → List (Sid × Session
 def dumpNode (n : Node) : List String :=
   let sessions := n.sessions.foldr insSid []
   [s!"D role {roleStr n.role}"]
-  ++ (sortBy (·.1) n.dbs).flatMap (fun (_, d) => dumpDb d)
+  ++ (sortBy (·.1) n.dbs).flatMap (fun (_, d) => dumpDb d (fun x => (AL.get? n.sessions x).isSome))
   ++ sessions.map (fun (sid, s) =>
       let mem := match s.member with | some (nm, r) => s!"{escw nm}:{roleStr r}" | none => "-"
       s!"D sess {sid} auth={if s.auth then 1 else 0} db={optStr s.db} user={optStr s.user} member={mem}")
@@ -345,6 +345,9 @@ def step (w : World) (line : String) : World × List String :=
       let (n, r, evs) := n0.exec sid (unesc a2)
       let w := recordNotices { w with node := n } evs
       let (w, shown) := absorb w evs
+      -- a line pushed to a session that no longer exists goes nowhere (its receiver is gone; the sender may still be registered
+      -- as a watcher of a database the session had left before it closed)
+      let shown := shown.filter fun e => match e with | .push s _ => (AL.get? n.sessions s).isSome | _ => true
       (w, respStr r :: evLines shown ++ dumpNode n)
     | none => (w, ["E bad-op"])
   | "RESOLVE" =>
